@@ -12,6 +12,7 @@ let opt_str f = if f = "~" then None else Some (str_of_field f)
 
 let addr_diverged = ref false
 
+let size_unseen = ref false
 let parse_mail_table pip t =
   List.map (fun e ->
     match String.split_on_char ':' e with
@@ -23,6 +24,9 @@ let parse_mail_table pip t =
                         | _ -> None) in
         let impl = { mf_match = (m = "1"); mf_has_params = (hp = "1"); mf_params_ok = (pok = "1");
                      mf_size = opt_str size; mf_origin = impl_origin } in
+        (* C06: wherever the implementation's parser accepts the command, it must have seen the declared SIZE
+           (read without the patterns: Model/SmtpMailParse.v declared_size_spec) *)
+        if not (size_seen_ok (str_of_field arg) impl) then size_unseen := true;
         (match mail_facts_of pip (str_of_field arg) with
          | Some f -> if f <> impl then addr_diverged := true; (str_of_field arg, f)
          | None -> addr_diverged := true; (str_of_field arg, impl))
@@ -174,6 +178,7 @@ let handle_smtp (kind : string) (ins : string list) (outs : string list) : bool 
                | Some v -> v | None -> ip_miss := true; false in
              let mode = match naming with "full" -> Full | "domain" -> Domain | _ -> Local in
              addr_diverged := false;
+             size_unseen := false;
              let o = { t_mail = parse_mail_table pip mt; t_rcpt = parse_rcpt_table pip mode rt; t_mail_hook = mh;
                        t_rcpt_hook = rh; t_hdr = parse_hdr_table ht; t_msg_hook = gh } in
              let impl_replies = String.split_on_char '|' replies in
@@ -290,6 +295,7 @@ let handle_smtp (kind : string) (ins : string list) (outs : string list) : bool 
                  | B _ -> n := 0
                  | _ -> ()) dlg) streams;
              if status <> "ok" then add "C03:session-error";
+             if !size_unseen then add "C06:declared-SIZE-not-seen-by-the-MAIL-parser";
              let norm d = if par then sort_within d else d in
              let show_store = if kind = "asm" || kind = "asmtls" || kind = "asmr" then show_store_asm else show_store in
              let store_ok =
